@@ -61,6 +61,10 @@ theorem ev_cast_id {env : Env} {η : Hp} {F : GFile} {ρ : GEnv} {w w' : GWorld}
       rw [hd] at hg; simp only at hg
       obtain ⟨gs, _, rfl⟩ := hg
       simp [goTy]
+  · rename_i ps r
+    cases v <;> simp only [HasTy] at ht <;> try exact ht.elim
+    simp only [VRel] at hg; subst hg
+    simp [goTy, convert]
 
 /-- what the file must contain for the vtable `(tr, forTy)` -/
 structure DynLink (env : Env) (F : GFile) (tr : String) (forTy : Ty) : Prop where
